@@ -1,0 +1,226 @@
+//! Drop-in replacements for `std::sync::{Mutex, Condvar}` that report what they do to an observer.
+//!
+//! Behaviour is that of the std types (poisoning included). When no observer is installed the only
+//! difference is one atomic load per operation. An observer may *block* inside `event`, which is how a
+//! verification harness takes control of the schedule; with `virtual_condvars` it also replaces the
+//! blocking part of `Condvar::wait` (the guard is released, the observer decides when the waiter goes
+//! on, the mutex is taken again).
+
+use std::fmt;
+use std::ops::{Deref, DerefMut};
+use std::panic::Location;
+use std::sync::atomic::{AtomicUsize, Ordering};
+pub use std::sync::{Arc, LockResult, PoisonError};
+
+#[derive(Debug, Clone, Copy, PartialEq, Eq)]
+pub enum EventKind {
+    /// about to acquire `lock` (may block)
+    Want,
+    Acquired,
+    Released,
+    /// `Condvar::wait` on condvar `cv`; the mutex has been released
+    WaitBegin,
+    /// woken up, about to take the mutex again
+    WaitEnd,
+    NotifyAll,
+    NotifyOne,
+}
+
+#[derive(Debug, Clone, Copy)]
+pub struct Event {
+    pub kind: EventKind,
+    /// id of the mutex involved (for notify events: 0)
+    pub lock: usize,
+    /// id of the condvar involved (0 if none)
+    pub cv: usize,
+    /// where the mutex / condvar was created
+    pub site: &'static Location<'static>,
+}
+
+#[derive(Clone, Copy)]
+pub struct Observer {
+    pub event: fn(Event),
+    /// if true, `Condvar::wait` does not block on the real condvar: `event(WaitBegin)` returns when the waiter may go on
+    pub virtual_condvars: bool,
+}
+
+static OBSERVER_FN: AtomicUsize = AtomicUsize::new(0);
+static OBSERVER_VIRTUAL: AtomicUsize = AtomicUsize::new(0);
+static NEXT_ID: AtomicUsize = AtomicUsize::new(1);
+
+pub fn set_observer(o: Option<Observer>) {
+    match o {
+        Some(o) => {
+            OBSERVER_VIRTUAL.store(o.virtual_condvars as usize, Ordering::SeqCst);
+            OBSERVER_FN.store(o.event as usize, Ordering::SeqCst);
+        }
+        None => {
+            OBSERVER_FN.store(0, Ordering::SeqCst);
+            OBSERVER_VIRTUAL.store(0, Ordering::SeqCst);
+        }
+    }
+}
+
+#[inline]
+fn emit(kind: EventKind, lock: usize, cv: usize, site: &'static Location<'static>) {
+    let f = OBSERVER_FN.load(Ordering::SeqCst);
+    if f != 0 {
+        let f: fn(Event) = unsafe { std::mem::transmute(f) };
+        f(Event {
+            kind,
+            lock,
+            cv,
+            site,
+        });
+    }
+}
+
+pub struct Mutex<T: ?Sized> {
+    id: usize,
+    site: &'static Location<'static>,
+    inner: std::sync::Mutex<T>,
+}
+
+pub struct MutexGuard<'a, T: ?Sized + 'a> {
+    mutex: &'a Mutex<T>,
+    guard: Option<std::sync::MutexGuard<'a, T>>,
+}
+
+impl<T> Mutex<T> {
+    #[track_caller]
+    pub fn new(t: T) -> Self {
+        Mutex {
+            id: NEXT_ID.fetch_add(1, Ordering::SeqCst),
+            site: Location::caller(),
+            inner: std::sync::Mutex::new(t),
+        }
+    }
+
+    pub fn into_inner(self) -> LockResult<T> {
+        self.inner.into_inner()
+    }
+}
+
+impl<T: ?Sized> Mutex<T> {
+    pub fn id(&self) -> usize {
+        self.id
+    }
+
+    pub fn lock(&self) -> LockResult<MutexGuard<'_, T>> {
+        emit(EventKind::Want, self.id, 0, self.site);
+        let r = self.inner.lock();
+        emit(EventKind::Acquired, self.id, 0, self.site);
+        match r {
+            Ok(g) => Ok(MutexGuard {
+                mutex: self,
+                guard: Some(g),
+            }),
+            Err(p) => Err(PoisonError::new(MutexGuard {
+                mutex: self,
+                guard: Some(p.into_inner()),
+            })),
+        }
+    }
+
+    pub fn is_poisoned(&self) -> bool {
+        self.inner.is_poisoned()
+    }
+}
+
+impl<T: ?Sized + fmt::Debug> fmt::Debug for Mutex<T> {
+    fn fmt(&self, f: &mut fmt::Formatter<'_>) -> fmt::Result {
+        self.inner.fmt(f)
+    }
+}
+
+impl<T: ?Sized> Deref for MutexGuard<'_, T> {
+    type Target = T;
+    fn deref(&self) -> &T {
+        self.guard.as_ref().unwrap()
+    }
+}
+
+impl<T: ?Sized> DerefMut for MutexGuard<'_, T> {
+    fn deref_mut(&mut self) -> &mut T {
+        self.guard.as_mut().unwrap()
+    }
+}
+
+impl<T: ?Sized> Drop for MutexGuard<'_, T> {
+    fn drop(&mut self) {
+        if let Some(g) = self.guard.take() {
+            drop(g);
+            emit(EventKind::Released, self.mutex.id, 0, self.mutex.site);
+        }
+    }
+}
+
+pub struct Condvar {
+    id: usize,
+    site: &'static Location<'static>,
+    inner: std::sync::Condvar,
+}
+
+impl Condvar {
+    #[track_caller]
+    pub fn new() -> Self {
+        Condvar {
+            id: NEXT_ID.fetch_add(1, Ordering::SeqCst),
+            site: Location::caller(),
+            inner: std::sync::Condvar::new(),
+        }
+    }
+
+    pub fn id(&self) -> usize {
+        self.id
+    }
+
+    pub fn wait<'a, T>(&self, mut guard: MutexGuard<'a, T>) -> LockResult<MutexGuard<'a, T>> {
+        let mutex = guard.mutex;
+        if OBSERVER_FN.load(Ordering::SeqCst) != 0 && OBSERVER_VIRTUAL.load(Ordering::SeqCst) != 0 {
+            // the observer owns the waiting: release, let it decide when to go on, take the mutex again
+            drop(guard);
+            emit(EventKind::WaitBegin, mutex.id, self.id, self.site);
+            emit(EventKind::WaitEnd, mutex.id, self.id, self.site);
+            return mutex.lock();
+        }
+        let inner = guard.guard.take().unwrap();
+        emit(EventKind::Released, mutex.id, 0, mutex.site);
+        emit(EventKind::WaitBegin, mutex.id, self.id, self.site);
+        let r = self.inner.wait(inner);
+        emit(EventKind::WaitEnd, mutex.id, self.id, self.site);
+        emit(EventKind::Acquired, mutex.id, 0, mutex.site);
+        match r {
+            Ok(g) => Ok(MutexGuard {
+                mutex,
+                guard: Some(g),
+            }),
+            Err(p) => Err(PoisonError::new(MutexGuard {
+                mutex,
+                guard: Some(p.into_inner()),
+            })),
+        }
+    }
+
+    pub fn notify_all(&self) {
+        emit(EventKind::NotifyAll, 0, self.id, self.site);
+        self.inner.notify_all();
+    }
+
+    pub fn notify_one(&self) {
+        emit(EventKind::NotifyOne, 0, self.id, self.site);
+        self.inner.notify_one();
+    }
+}
+
+impl Default for Condvar {
+    fn default() -> Self {
+        Condvar::new()
+    }
+}
+
+impl fmt::Debug for Condvar {
+    fn fmt(&self, f: &mut fmt::Formatter<'_>) -> fmt::Result {
+        self.inner.fmt(f)
+    }
+}
